@@ -16,6 +16,7 @@ type ColInfo struct {
 	Ty      string `json:"ty"`   // "i" | "s"
 	Coll    string `json:"coll"` // none | bin | ci
 	NotNull bool   `json:"notnull"`
+	Phys    string `json:"phys,omitempty"` // physical type of an "i" column when not INT (TINYINT, SMALLINT)
 }
 
 type TableDef struct {
@@ -31,7 +32,9 @@ func (t *TableDef) CreateSQL() string {
 	var parts []string
 	for i, c := range t.Cols {
 		s := fmt.Sprintf("c%d ", i+1)
-		if c.Ty == "i" {
+		if c.Ty == "i" && c.Phys != "" {
+			s += c.Phys
+		} else if c.Ty == "i" {
 			s += "INT"
 		} else if c.Ty == "d" {
 			s += "DECIMAL(6,2)"
@@ -105,12 +108,13 @@ type Gen struct {
 	MaxRows int
 	// feature switches
 	NoSubq, NoStrings, NoAgg, NoSetOp, NoOuter bool
-	AllowMod   bool // generate the % operator
-	Decimals   bool // generate DECIMAL(6,2) columns (compared, grouped, ordered, IN-listed; no arithmetic)
-	IndexAll   bool // every table gets single-column indexes on its first two columns (join-algorithm coverage)
-	MaxJoin    int  // maximum number of table instances in one FROM clause (default 2)
-	CIFuncs    bool // allow string functions over _ci columns
-	CIDistinct bool // allow DISTINCT / COUNT(DISTINCT) / set operations over _ci columns (C07's subject)
+	AllowMod                                   bool // generate the % operator
+	Decimals                                   bool // generate DECIMAL(6,2) columns (compared, grouped, ordered, IN-listed; no arithmetic)
+	IndexAll                                   bool // every table gets single-column indexes on its first two columns (join-algorithm coverage)
+	MaxJoin                                    int  // maximum number of table instances in one FROM clause (default 2)
+	CIFuncs                                    bool // allow string functions over _ci columns
+	NarrowInts                                 bool // some integer columns are TINYINT / SMALLINT holding their extreme values, compared with constants just outside the type
+	CIDistinct                                 bool // allow DISTINCT / COUNT(DISTINCT) / set operations over _ci columns (C07's subject)
 }
 
 func New(seed int64) *Gen {
@@ -139,6 +143,10 @@ func (g *Gen) val(c ColInfo, nullP float64) Value {
 	if c.NotNull {
 		nullP = 0
 	}
+	if c.Ty == "i" && c.Phys != "" && !g.chance(nullP) && g.chance(0.35) {
+		ext := narrowEdge[c.Phys]
+		return Int(ext[g.pick(len(ext))])
+	}
 	if c.Ty == "i" {
 		return g.IntVal(nullP)
 	}
@@ -147,6 +155,10 @@ func (g *Gen) val(c ColInfo, nullP float64) Value {
 	}
 	return g.StrVal(nullP)
 }
+
+// narrowEdge: the extreme values of the narrow integer types; narrowOut: constants at and just past them.
+var narrowEdge = map[string][]int{"TINYINT": {127, -128, 126}, "SMALLINT": {32767, -32768}}
+var narrowOut = []int{127, 128, -128, -129, 126, 200, -200, 32767, 32768, -32768, -32769, 40000}
 
 // decPool: values whose printed forms end in zeros / differ only in trailing digits, on purpose.
 var decPool = []int{0, 100, 150, -225, 1000, 2000, 10000, 50, 200, 1050, -100}
@@ -179,6 +191,9 @@ func (g *Gen) Schema(n int) []*TableDef {
 		w := 2 + g.pick(2)
 		for c := 0; c < w; c++ {
 			ci := ColInfo{Ty: "i", Coll: "none"}
+			if g.NarrowInts && g.chance(0.5) {
+				ci.Phys = []string{"TINYINT", "TINYINT", "SMALLINT"}[g.pick(3)]
+			}
 			if !g.NoStrings && c > 0 && g.chance(0.35) {
 				ci = ColInfo{Ty: "s", Coll: "bin"}
 				if g.chance(0.4) {
@@ -211,6 +226,15 @@ func (g *Gen) Schema(n int) []*TableDef {
 			}
 			t.Indexes = append(t.Indexes, ix)
 			t.Unique = append(t.Unique, false)
+		}
+		if g.NarrowInts {
+			// the narrow columns are the ones whose range handling is at stake: index each of them
+			for c := 0; c < w; c++ {
+				if t.Cols[c].Phys != "" {
+					t.Indexes = append(t.Indexes, []int{c})
+					t.Unique = append(t.Unique, false)
+				}
+			}
 		}
 		if g.IndexAll {
 			for c := 0; c < 2 && c < w; c++ {
@@ -445,6 +469,16 @@ func (g *Gen) cmp(s Scopes, depth int) *Expr {
 			op = "eq" // <=> ignores the _ci collation (known finding C02-nullsafe-eq-ignores-ci)
 		}
 		return Op(op, g.StrExpr(s, depth, coll), g.StrExpr(s, depth, coll))
+	}
+	if g.NarrowInts && g.chance(0.3) {
+		// a bare integer column against a constant at / just outside a narrow type's range
+		if c := g.colOf(s, "i", ""); c != nil {
+			k := Lit(Int(narrowOut[g.pick(len(narrowOut))]))
+			if g.chance(0.5) {
+				return Op(op, c, k)
+			}
+			return Op(op, k, c)
+		}
 	}
 	return Op(op, g.IntExpr(s, depth), g.IntExpr(s, depth))
 }
